@@ -355,7 +355,7 @@ func membershipFeatures(p *Prog, fn *ssa.Function, client ssa.Value) map[string]
 						return false
 					}
 					cc := staticCallee(c2)
-					s, _ := constStr(c2.Call.Args[1])
+					s, _ := constStr(argN(c2, 1))
 					return cc != nil && qualFn(cc) == "strings.Contains" && s == "/" && c2.Call.Args[0] == args[0]
 				}) {
 					res["cidr-branch"] = true
